@@ -1,6 +1,7 @@
 package core
 
 import (
+	"bytes"
 	"io"
 	"fmt"
 	"math"
@@ -48,7 +49,7 @@ func Assemble(na datamodel.NodeAssembler, v Val, r *Rand) error {
 	case 'b':
 		if r != nil && r.Chance(1, 5) {
 			// a stream-backed bytes node whose underlying reader delivers short reads (legal for an io.Reader)
-			return na.AssignNode(basicnode.NewBytesFromReader(&ShortReadSeeker{Data: append([]byte{}, v.S...), Max: 1 + r.Intn(4)}))
+			return na.AssignNode(basicnode.NewBytesFromReader(StreamSource(r, v.S)))
 		}
 		return na.AssignBytes(append([]byte{}, v.S...))
 	case 'l':
@@ -148,6 +149,23 @@ type ShortReadSeeker struct {
 	Data []byte
 	Max  int
 	pos  int64
+	// EOFWithData: the read that delivers the last byte reports io.EOF together with it (legal for an io.Reader:
+	// "may return the (non-nil) error from the same call"), as section readers and some network readers do
+	EOFWithData bool
+}
+
+// StreamSource draws an io.ReadSeeker over data: a bytes.Reader, or one that delivers short reads, with the end of the
+// stream reported on a separate read or together with the last bytes.
+func StreamSource(r *Rand, data []byte) io.ReadSeeker {
+	switch r.Intn(4) {
+	case 0:
+		return &ShortReadSeeker{Data: append([]byte{}, data...), Max: 1 + r.Intn(4)}
+	case 1:
+		return &ShortReadSeeker{Data: append([]byte{}, data...), Max: 1 + r.Intn(64), EOFWithData: true}
+	case 2:
+		return &ShortReadSeeker{Data: append([]byte{}, data...), Max: 1 << 20, EOFWithData: true}
+	}
+	return bytes.NewReader(append([]byte{}, data...))
 }
 
 func (s *ShortReadSeeker) Read(p []byte) (int, error) {
@@ -163,6 +181,9 @@ func (s *ShortReadSeeker) Read(p []byte) (int, error) {
 	}
 	copy(p, s.Data[s.pos:s.pos+int64(n)])
 	s.pos += int64(n)
+	if s.EOFWithData && s.pos >= int64(len(s.Data)) && n > 0 {
+		return n, io.EOF
+	}
 	return n, nil
 }
 
